@@ -471,9 +471,24 @@ func describeFrames(fs []frame.Frame) string {
 type c05RCParams struct {
 	K      connCfg
 	Closer string // Close | CloseNow | cancel
+	// Buf: size of the reader's buffer (default 256, which is more than a frame's payload: every
+	// Read call then ends at a frame boundary). 100: the reader is in the middle of a frame
+	// between two Read calls.
+	Buf int
+	// Echo: the peer answers the connection's Close frame with its own
+	Echo bool
 }
 
-func (p c05RCParams) name() string { return "RC-" + p.Closer + "/" + p.K.String() }
+func (p c05RCParams) name() string {
+	n := "RC-"
+	if p.Buf != 0 {
+		n = fmt.Sprintf("RC%d-", p.Buf)
+	}
+	if p.Echo {
+		n += "echo-"
+	}
+	return n + p.Closer + "/" + p.K.String()
+}
 
 var c05RCStreams = map[string][]byte{}
 
@@ -488,6 +503,14 @@ func c05RCSetup(prm c05RCParams) func(c *fw.Ctx, name string) explore.Setup {
 		}
 		k := prm.K
 		key := k.String()
+		if prm.Buf != 0 {
+			// a short first fragment and a final frame that takes two Read calls
+			key += "/simple"
+			msg = msg[:400]
+			if _, ok := c05RCStreams[key]; !ok {
+				c05RCStreams[key] = append(peerData(k, frame.OpBinary, false, msg[:100]), peerData(k, frame.OpCont, true, msg[100:])...)
+			}
+		}
 		frames, ok := c05RCStreams[key]
 		if !ok {
 			pl := msg
@@ -515,6 +538,9 @@ func c05RCSetup(prm c05RCParams) func(c *fw.Ctx, name string) explore.Setup {
 					// the message arrives in two transport deliveries at scheduler-chosen moments
 					p.Send(frames[:len(frames)/2])
 					p.Send(frames[len(frames)/2:])
+					if prm.Echo && p.WaitOut("close-frame", func(out []byte) bool { return hasOp(out, frame.OpClose) }) {
+						p.Send(peerClose(k, 1000, ""))
+					}
 				})
 				w.GoHarness("reader", true, func() {
 					_, r, err := conn.Reader(ctx)
@@ -523,6 +549,9 @@ func c05RCSetup(prm c05RCParams) func(c *fw.Ctx, name string) explore.Setup {
 						return
 					}
 					buf := make([]byte, 256)
+					if prm.Buf != 0 {
+						buf = make([]byte, prm.Buf)
+					}
 					for {
 						n, err := r.Read(buf)
 						got = append(got, buf[:n]...)
@@ -593,6 +622,20 @@ func c05Scenarios(tier string) []scenario {
 				if k.Flate && !k.CNCT {
 					cfg.P = 2 // executions that inflate with context takeover are ~10x slower
 				}
+			}
+			scs = append(scs, scenario{Name: prm.name(), Cfg: cfg, Setup: c05RCSetup(prm)})
+		}
+	}
+	// the reader is in the middle of a frame between two Read calls when the closer arrives
+	for _, k := range []connCfg{{Client: false}, {Client: true}} {
+		for _, cl := range []string{"Close", "echo-Close", "CloseNow", "cancel"} {
+			prm := c05RCParams{K: k, Closer: strings.TrimPrefix(cl, "echo-"), Echo: strings.HasPrefix(cl, "echo-"), Buf: 150}
+			cfg := explore.Config{P: 1, Horizon: 60e9}
+			if prm.Echo {
+				cfg.P = 2 // (the reader has to overtake the closing goroutine twice)
+			}
+			if tier == "thorough" {
+				cfg.P = 3
 			}
 			scs = append(scs, scenario{Name: prm.name(), Cfg: cfg, Setup: c05RCSetup(prm)})
 		}
